@@ -50,7 +50,7 @@ claim(
 claim(
     "C08",
     "Lean 4 proof (refinement of the fuel-indexed walker to a tree-recursive specification, explicit fuel bound) + differential correspondence with run_jaqal_circuit / parse_jaqal_output_list under an alarm",
-    "Theorems C08_terminates, C08_order, C08_unroll, C08_zero, C08_indices (and C03_serialize for the per-trace gate list) prove for every accepted nesting that the trace walker terminates within an explicit fuel bound, emits exactly the subcircuit visits of the unrolled program in order (a visit = executing the gate at which the trace starts), that loops with count ≤ 0 contribute none while their subcircuits stay numbered, and that readout indices are 0,1,2,… with per-subcircuit counts equal to occurrences. Direct oracles on the real code add: let-valued and overridden loop counts behave like literals, hardware output lists are consumed in visit order, sampled outcomes have non-zero probability, relative frequencies count own readouts.",
+    "Theorems C08_terminates, C08_order, C08_unroll, C08_zero, C08_indices (and C03_serialize for the per-trace gate list), lifted to the whole run model (subcircuit blocks, lets and macros expanded first) by C08_run_visits / C08_run_never_hangs, prove for every accepted nesting that the trace walker terminates within an explicit fuel bound, emits exactly the subcircuit visits of the unrolled program in order (a visit = executing the gate at which the trace starts), that loops with count ≤ 0 contribute none while their subcircuits stay numbered, and that readout indices are 0,1,2,… with per-subcircuit counts equal to occurrences. Direct oracles on the real code add: let-valued and overridden loop counts behave like literals, hardware output lists are consumed in visit order, sampled outcomes have non-zero probability, relative frequencies count own readouts.",
     COMMON_NOTE + "numpy.random.choice is an external oracle (checked per readout, not proved); the real code is run under a 5–10 s alarm, a timeout is a failure.",
     "DESIGN.md §7 C08",
 )
